@@ -22,7 +22,9 @@ RULE = (
     "on/off x log on/off (tcp), x count {1,3} x clear on/off (unix, peer 'localhost', trusted 10.0.0.1 or 127.0.0.1). H = "
     "1..6 kinds present, names in canonical / mixed-case / underscore spellings, duplicated lines; values well-formed "
     "(marker hop lists), malformed, degenerate, hostile, single-byte mutated (vf/gen/proxyvals.py). Peers: unrelated "
-    "addresses and addresses sharing a prefix with the trusted one. Oracle: equal status; equal REMOTE_ADDR, REMOTE_HOST, "
+    "addresses and addresses sharing a prefix with the trusted one; further configurations: a link-local proxy with a "
+    "zone (peers in other zones), a proxy given by name under a hostile name service (reverse lookups claim the name), "
+    "a proxy written with a leading zero (peer = its octal reading). Oracle: equal status; equal REMOTE_ADDR, REMOTE_HOST, "
     "REMOTE_PORT, SERVER_NAME, SERVER_PORT, HTTP_HOST, wsgi.url_scheme; equal str/tuple/bool values under every other key "
     "and equal request body; proxy keys absent (clear on) or verbatim (clear off). Non-vacuity: for a third of the pairs "
     "the same two requests from the trusted peer, counting per variable how often H changed it. distinct = (config "
